@@ -106,7 +106,7 @@ def _run_variant(task):
     behind by an earlier run - caches, registries - can neither leak into the next variant nor mask a difference."""
     fam, vi = task
     r = _run_family(dict(fam, variants=[fam["variants"][vi]]), first_index=vi)
-    return r["records"]
+    return r["records"], r["crashes"]
 
 
 def _run_family(fam, first_index=0):
@@ -117,6 +117,7 @@ def _run_family(fam, first_index=0):
     from harness import sysrun, tracer
     from harness.drivers import c01
     recs = []
+    crashes = []
     meta_out = []
     for vi, var in enumerate(fam["variants"], start=first_index):
         cfg, evs = _variant_cfg(fam, var)
@@ -124,7 +125,7 @@ def _run_family(fam, first_index=0):
             case = {"start": fam["start"], "step": fam["step"], "nsteps": fam["nsteps"], "events": evs, "seed": 1}
             ecfg, _meta = c01.build_case(case)
             # build_case builds its own 2x2 config; only take the event dicts, re-targeted to this family's ids
-            cfg["events"] = _retarget_events(ecfg["events"], cfg)
+            cfg["events"] = _retarget_events(ecfg["events"], cfg, len(fam.get("events", [])))
         env = None
         if var.get("table_env"):
             tracer.install_table_env()
@@ -150,21 +151,32 @@ def _run_family(fam, first_index=0):
             for aid, ag in list(app.target_agents.items()) + list(app.sensor_agents.items()):
                 d1, d2 = _digest(ag.eci_state)
                 recs.append({"v": vi, "a": int(aid), "k": 0, "d1": d1, "d2": d2})
-            for c in var.get("split", [fam["nsteps"]]):
-                su.run_for(app, c * fam["step"])
+            try:
+                for c in var.get("split", [fam["nsteps"]]):
+                    su.run_for(app, c * fam["step"])
+            except tlc.MachineryError:
+                raise
+            except Exception as ex:  # noqa: BLE001 - the real run died: the remaining agents get no truth at all
+                crashes.append({"v": vi, "at_step": kk[0] + 1, "error": f"{type(ex).__name__}: {ex}"[:300]})
         finally:
             tracer.stop()
             sched.set_chooser(None)
         meta_out.append({"variant": var, "agents": len(app.target_agents) + len(app.sensor_agents)})
-    return {"family": {k: v for k, v in fam.items() if k != "variants"}, "variants": [m["variant"] for m in meta_out], "records": recs}
+    return {"family": {k: v for k, v in fam.items() if k != "variants"}, "variants": [m["variant"] for m in meta_out], "records": recs,
+            "crashes": crashes}
 
 
-def _retarget_events(events, cfg):
-    """Point events built for the 2x2 template at this config's engine / agent ids."""
+def _retarget_events(events, cfg, n_family):
+    """Point events built for the 2x2 template at this config's engine / agent ids: the family's maneuvers go to the
+    first target, a VARIANT's maneuvers to the last one (an agent that exists in that variant only)."""
     eng = cfg["engines"][0]
     out = []
-    for e in events:
+    for i, e in enumerate(events):
         e = copy.deepcopy(e)
+        if i >= n_family and e["event_type"] in ("impulse", "finite_burn", "finite_maneuver"):
+            e["scope_instance_id"] = eng["targets"][-1]["id"]
+            out.append(e)
+            continue
         if "tasking_engine_id" in e:
             e["tasking_engine_id"] = eng["unique_id"]
         if e["event_type"] == "agent_removal":
@@ -202,6 +214,12 @@ def make_families(ctx: Ctx, rng):
         {"drop_sensor": 0, "schedule": "random", "sched_seed": 2},
         {"events": [{"kind": "removeSensor", "t0": None, "index": -1}]},   # another agent leaves mid-run
         {"events": [{"kind": "addTarget", "t0": None}], "decision": "MyopicNaiveGreedyDecision"},
+        # ANOTHER agent (present in this variant only) maneuvers, unplanned, in the very step of the family's maneuver and
+        # earlier in it; and: another agent is removed while a maneuver of it is still scheduled
+        {"extra_target": 3, "events": [{"kind": "impulse", "t0": "step+1", "planned": False},
+                                       {"kind": "burn", "t0": "step+1", "t1": "3step", "planned": False}], "truth_only": True},
+        {"extra_target": 2, "events": [{"kind": "removeTarget", "t0": "step", "index": -1},
+                                       {"kind": "impulse", "t0": "2step+1", "planned": False}]},
         # the id of the target that joins was used before by another agent, removed one second before the join epoch
         {"reused_id": True, "events": [{"kind": "removeTarget", "t0": "before", "index": -1}, {"kind": "addTarget", "t0": None}]},
     ]
@@ -228,6 +246,9 @@ def make_families(ctx: Ctx, rng):
                 if "split_at" in var:
                     var["split"] = [var.pop("split_at"), n - 2]
                 for e in var.get("events", []):
+                    for key in ("t0", "t1"):
+                        if isinstance(e.get(key), str) and e[key] != "before":
+                            e[key] = {"step": step, "step+1": step + 1, "2step+1": 2 * step + 1, "3step": 3 * step}[e[key]]
                     if e.get("t0") == "before":
                         e["t0"] = fam_event_t0 - 1
                     if e.get("t0") is None:
@@ -282,8 +303,10 @@ def run(ctx: Ctx):
     results = []
     it = iter(recs)
     for fam in fams:
-        merged = [x for _ in fam["variants"] for x in next(it)]
-        results.append({"family": {k: v for k, v in fam.items() if k != "variants"}, "variants": fam["variants"], "records": merged})
+        parts = [next(it) for _ in fam["variants"]]
+        merged = [x for p in parts for x in p[0]]
+        results.append({"family": {k: v for k, v in fam.items() if k != "variants"}, "variants": fam["variants"], "records": merged,
+                        "crashes": [c for p in parts for c in p[1]]})
     traces = [r["records"] for r in results]
     d = ctx.sub("truthpairs")
     (d / "traces.json").write_text(json.dumps(traces))
@@ -301,6 +324,12 @@ def run(ctx: Ctx):
             ctx.case((json.dumps(fam, sort_keys=True), json.dumps(var, sort_keys=True)), nontrivial=vi > 0,
                      sample={"family": fam, "variant": var} if len(ctx.samples) < 4 and vi in (1, 5) else None)
         ctx.traces_validated += len(r["variants"])
+        for c in r.get("crashes", []):
+            var = r["variants"][c["v"]]
+            kind = "+".join(sorted(k for k in var if k not in ("sched_seed", "np_seed", "noise_seed", "env_seed"))) or "reference"
+            sig = f"truth-run-dies:{fam['model']}:{kind}:{c['error'].split(':')[0]}"
+            ctx.violation(sig, f"{sig}: variant {json.dumps(var)} of family {json.dumps(fam)} raised {c['error']} in step {c['at_step']}: "
+                               "the other agents of the scenario get no truth from that step on", {"family": dict(fam, variants=[r["variants"][0], var])})
         pos = reached.get(i + 1, 1)
         if pos != len(traces[i]) + 1:
             bad = traces[i][pos - 1]
